@@ -75,6 +75,7 @@ rule('stat', 'localfunction', q('local'), q('function'), 'Name', 'funcbody')
 rule('stat', 'local', q('local'), 'namelist', 'localinit')
 rule('stat', 'goto', q('goto'), q('GNAME'))
 rule('stat', 'label', q('LABEL'))
+rule('stat', 'label', q('LABEL_sp'))
 
 rule('elifs', 'elifs_none')
 rule('elifs', 'elifs_more', q('elseif'), 'exp', q('then'), 'block', 'elifs')
@@ -571,8 +572,8 @@ class _Renderer(object):
             text = NUMBER_CLASSES[cls]
         elif cls in STRING_CLASSES:
             text = STRING_CLASSES[cls]
-        elif cls == 'LABEL':
-            text = b'::g::'
+        elif cls in ('LABEL', 'LABEL_sp'):
+            text = b'::g::' if cls == 'LABEL' else b':: g\t::'
             self.labels.append((len(self.fn_stack), self.block_depth))
         else:
             text = cls.encode('latin-1')
@@ -904,8 +905,8 @@ class _Renderer(object):
         return ('goto', t.text)
 
     def s_label(self, kids):
-        t = self.emit('LABEL')
-        return ('label', t.text[2:-2])
+        t = self.emit(kids[0][1])
+        return ('label', t.text[2:-2].strip())
 
     # -- pieces
     def r_assignop(self, label, kids, tree):
@@ -1192,8 +1193,8 @@ def expected_ref_tokens(prog):
     """The significant reference tokens the program must lex to (labels expand to 3 tokens)."""
     out = []
     for t in prog.toks:
-        if t.cls == 'LABEL':
-            out += [b'::', t.text[2:-2], b'::']
+        if t.cls.startswith('LABEL'):
+            out += [b'::', t.text[2:-2].strip(), b'::']
         else:
             out.append(t.text)
     return out
